@@ -69,7 +69,7 @@ def facts(src, strip_comments, fn_body):
     fns = impl_fns(text)
     res = {"errors": errors, "fns": [], "sweeperRechecks": False, "sweeperCollectsFromIndex": False,
            "centralLazy": False, "expiredIsStrict": False, "ttlComparesStrict": False,
-           "ttlArms": [], "pttlFloorsMillis": False, "snapshotReadsThroughGet": False}
+           "ttlArms": [], "ttlLastMsFixed": False, "pttlFloorsMillis": False, "snapshotReadsThroughGet": False}
     if not fns:
         errors.append("impl StorageEngine not found in storage/engine.rs")
         return res
@@ -175,11 +175,14 @@ def facts(src, strip_comments, fn_body):
                 arms.append("%s => %s" % (_norm(b.group(1)), _norm(b.group(2))))
                 arms.append("else => %s" % _norm(b.group(3)))
     res["ttlArms"] = arms
+    res["ttlLastMsFixed"] = bool(arms) and bool(re.match(r"duration\.(is_zero\(\)|as_nanos\(\) == 0) =>", arms[0]))
     if len(arms) != 4:
         errors.append("handle_ttl arithmetic (if-chain on Some(duration)) not recognised")
     # rdb.rs: the snapshot reads every value through `get` (lazily checked)
     rdb = strip_comments(src("storage/rdb.rs"))
-    res["snapshotReadsThroughGet"] = len(re.findall(r"storage\.get\(\s*db\w*\s*,\s*&key\s*\)", rdb)) >= 2
+    reads = re.findall(r"storage\.(get|get_with_ttl)\(\s*db\w*\s*,\s*&key\s*\)", rdb)
+    lazy_now = {x["name"] for x in res["fns"] if x["testsExpiry"]}
+    res["snapshotReadsThroughGet"] = len(reads) >= 2 and all(r_ in lazy_now for r_ in reads)
     return res
 
 
@@ -248,9 +251,11 @@ def generate(src, strip_comments, fn_body, header):
     L.append("def ttlComparesStrict : Bool := %s" % lean_bool(f["ttlComparesStrict"]))
     L.append("/-- the if-chain of `handle_ttl` on `Some(duration)`, whitespace-normalised: condition => result -/")
     L.append("def ttlArms : List String := %s" % lean_strs(f["ttlArms"]))
+    L.append("/-- the first arm of that chain answers -2 only for a ZERO duration (repair of the last-millisecond -2) -/")
+    L.append("def ttlLastMsFixed : Bool := %s" % lean_bool(f["ttlLastMsFixed"]))
     L.append("/-- `pttl` is `duration.as_millis() as i64` -/")
     L.append("def pttlFloorsMillis : Bool := %s" % lean_bool(f["pttlFloorsMillis"]))
-    L.append("/-- the RDB writer reads every value through `storage.get` (lazily checked) -/")
+    L.append("/-- the RDB writer reads every value through `storage.get` / `storage.get_with_ttl`, both lazily checked -/")
     L.append("def snapshotReadsThroughGet : Bool := %s" % lean_bool(f["snapshotReadsThroughGet"]))
     L += ["", "end Ferrous.Gen", ""]
     return "\n".join(L)
